@@ -57,6 +57,11 @@ WITNESSES = [
     ("lastline4", '@dec\ndef f():\n  x = 1\n  @dec\n  @e\n  def g():\n    return f"""a{x}\n# end"""\n'),
     ("crlf1", "y = 1 \\\r\n\r\nz = 2\r\n"),
     ("crlf2", "x = 1\r\n# c\r\ny = \'\'\'a\r\n# b\'\'\'\r\nimport os; z = 2  # t\r\n"),
+    ("clskw1", "class A(metaclass=M, *bases): pass\n"),
+    ("clskw2", "class A(Base, tag=\'t\', *mixins):\n    x = 1\n"),
+    ("clskw3", "class A(B, tag=\'t\', *[C, \"s\"][:1]): pass\ndef g():\n    class N(*a, k=\'1\', *b, **kw): pass\n"),
+    ("callmix1", "f(a, k=\'1\', *b)\nf(*a, k=\"1\", *[\'b\'], **{\'c\': \"d\"})\nx = g(\'p\', sep=\'s\', *(\'q\',), **dict(z=\'r\'))\n"),
+    ("emptydoc", "\"\"\nx = 1\n"),
     ("plain", "# 1\nprint(2)\n# 3\n# 4\nprint(5)\nx=[6,\n 7]\n# 8\n"),
     ("lead", "\n\n# c\n\nx=1\n\n\n# d\n\n"),
     ("cont", "x = 1 \\\n\ny = 2\n# c \\\n\nz = 3"),
